@@ -24,7 +24,7 @@ WATCHDOG = {"quick": 600, "thorough": 3000}
 WTESTS = {"groups": ['flatten'], "tests": ['tests/decay']}
 REQUIRED = {"sub-decay-without-daughters": 10, 
     "subdecays>=4": 20, "mult3-of-decaying": 20, "reoccur-two-depths": 20, "mother-last": 20, "stable-nonempty": 20,
-    "stable-as-set": 5, "stable-as-tuple": 5, "visible_bf": 20, "same-shape-other-branching-fractions": 20, "returned-chain-edited-then-original-compared": 50,
+    "stable-as-set": 5, "stable-as-tuple": 5, "visible_bf": 20, "same-shape-other-branching-fractions": 20, "returned-chain-edited-then-original-compared": 50, "all-sub-decays-with-bf-exactly-1": 20, "a-sub-decay-with-bf-exactly-0": 20,
     "C12.flatten.leaves_and_product": 500, "C12.flatten.original_unchanged": 500,
 }
 EXHAUSTIVE_NOTE = "W-enum is exhaustive over increasing-tree shapes with <= N decaying particles (N=5 quick, 6 thorough), child multiplicities 1..3, all stable subsets"
@@ -181,6 +181,15 @@ def run(ctx):
         ch = chains.random_chain(ctx.rng, n, empty=0.12)
         if any(not v[1] for v in ch["types"].values()):
             ctx.hit("sub-decay-without-daughters")
+        if i % 5 == 1:
+            # branching fractions that are exactly 1 (every sub-decay) or exactly 0 (one of them): the product does not move when they are multiplied in
+            for kk, v in ch["types"].items():
+                if kk != ch["mother"]:
+                    v[0] = 1.0
+            ctx.hit("all-sub-decays-with-bf-exactly-1")
+        elif i % 5 == 2 and len(ch["types"]) >= 3:
+            ch["types"][list(ch["types"])[1]][0] = 0.0
+            ctx.hit("a-sub-decay-with-bf-exactly-0")
         names = list(ch["types"])
         m = ch["mother"]
         others = [x for x in names if x != m]
@@ -189,6 +198,8 @@ def run(ctx):
             ctx.rng.shuffle(o)
             if j == 1:
                 o = [*[x for x in o if x != m], m]
+            if j == 2:
+                o = list(reversed(names))        # every child in front of its parent (the order DecayChain.from_dict produces)
             S = [] if j == 0 else ctx.rng.sample(others, ctx.rng.randint(0, min(3, len(others))))
             check_case(ctx, {"chain": ch, "order": o, "stable": S, "stable_type": stypes[(i + j) % 3], "visible": j == 0}, "gen")
     b = contracts.Budget.get()
